@@ -55,6 +55,9 @@ pub struct FState {
     /// since the window was set)
     pub failing_windows: Vec<(&'static str, u64, u64)>,
     pub site_calls: BTreeMap<&'static str, u64>,
+    /// the thread that armed the failing windows: only its calls are counted and failed (which
+    /// call of a background decoder thread comes k-th is a matter of real timing)
+    pub window_owner: Option<std::thread::ThreadId>,
     pub faults_fired: BTreeMap<&'static str, u64>,
 }
 
@@ -105,6 +108,7 @@ impl FHooks {
     pub fn set_failing_window(&self, site: &'static str, start: u64, count: u64) {
         let mut st = self.st.lock().unwrap();
         st.failing_windows.push((site, start, count));
+        st.window_owner = Some(std::thread::current().id());
     }
     pub fn take_faults_fired(&self) -> BTreeMap<&'static str, u64> {
         std::mem::take(&mut self.st.lock().unwrap().faults_fired)
@@ -147,6 +151,9 @@ impl verif_rt::Hooks for FHooks {
     }
     fn fault(&self, site: &'static str) -> bool {
         let mut st = self.st.lock().unwrap();
+        if !st.failing_windows.is_empty() && st.window_owner.is_some() && st.window_owner != Some(std::thread::current().id()) && !st.failing_sites.contains(&site) {
+            return false;
+        }
         let n = {
             let c = st.site_calls.entry(site).or_insert(0);
             *c += 1;
